@@ -66,3 +66,221 @@ Theorem C06_run_program_builds_step : forall (i : instr) (d : N) (ops : list N),
   op_regs i = Some (d, ops) -> src_run i = Some (d, ops, ["set-out"; "add-step"]%string).
 Proof. exact src_run_builds_step. Qed.
 Print Assumptions C06_run_program_builds_step.
+
+(* ================================================================================================================
+   THE LINK TO THE BYTES (Model/BytecodeLink.v, Proofs/BytecodeLinkP.v).
+   The theorems above are about the abstract program of Model/Bytecode.v (const loads carry values, operations carry
+   kernels).  Below, the same compiled program is LOWERED to the container of C07 (Model/Container.v: type section,
+   constant table, blob, instruction list, computed header), written to bytes, loaded back and run by a model of
+   Interpreter::run_program over the loaded sections:
+
+     plan p, final store --ncompile--> abstract program (= Bytecode.compile with function ids kept: C06_named_compile_erases)
+                         --lower-----> Container.program      (what compile_register_brrw!/compile_*op!/CompileCtx lay out)
+                         --encode_program--> bytes --load_program--> program --crun--> registers, rebuilt plan, self.out
+
+   Values are the constant kinds of Model/ConstCodec.v ([cval]: u8..u128, i8..i128, f32/f64 bit patterns, bool, index,
+   string, r64, c64 and dense matrices of these).
+
+   HYPOTHESES of C06_compile_load_run, and what is ABSTRACTED:
+   H1 [wf_cval (final c)] for every cell of the plan: the values are of a modelled kind and in range.  Value kinds
+      OUTSIDE cval (tables, sets, records, tuples, maps, atoms, enums, the empty value, kind annotations) are not
+      modelled: nothing is claimed for a plan that touches such a cell.
+      -> findings table-column-compile-panic (ValueKind::Any inside a matrix kind) and empty-value-compile-panic
+         (ValueKind::Empty) are panics of CompileConst / encode_value_kind on kinds outside cval: outside H1.
+   H2 [size_ok]: every count/offset/length of the computed header fits its field (u32 counts, u64 offsets), i.e. the
+      file is smaller than the format can describe; [wf_nstep]: function ids are u64, operand counts u32;
+      [wf_lenv]: feature words are u64, the crate version u16.
+   H3 [plan_accepted R p final]: FUNCTION-ID RESOLUTION and the FACTORIES are abstract — a registry R says which ids
+      have a factory (`known`) and whether the factory accepts (out, operands) (`factory_ok`); a factory either
+      refuses (error) or returns a function object whose out() is the out register it was given.  That hash_str of the
+      name the compiler emits is the id under which the runtime registered the same kernel is NOT proved (checked by the
+      tie only).  H3 asks that every function of the plan is known and accepts the interpreter's final values.
+      -> finding run-unknown-function is exactly the failure of H3's `known` part: C06_unregistered_function_is_an_error
+         proves the model's prediction (an error; never a panic, never a value).
+      -> finding r64-matrix-run-panic is a PANIC INSIDE a factory (Value::get_copyable_matrix_unchecked): the model's
+         factories only accept or refuse, so it is outside H3 (the abstraction "factories do not panic").
+   A4 KERNEL SEMANTICS are not used at all: the run does not solve the rebuilt plan (C06_run_rebuilds_plan), so the
+      statement holds for arbitrary kernels; what re-evaluating the loaded program computes is C06_restep_correct.
+   A5 The program RESULT is self.out = the out register of the last operation; the theorem says it is the interpreter's
+      value of the LAST PLAN STEP's output cell.  That the interpreter's program result IS that cell is not part of
+      the model -> finding result-is-last-step (last statement a bare variable reference): C06_result_is_last_step.
+   A6 Explicitly left open in [lower] (parameters [lenv]): the ORDER of the feature words (a HashSet in CompileCtx;
+      neither the loader nor the runner interprets them) and the crate version in mech_ver.  Everything else of the
+      file is determined: C06_sample_file_is_the_real_file compares the model's bytes with a file the real compiler wrote.
+   A7 Cells are abstract identities (the compiler keys registers by the address of the value's Rc cell); that two
+      operands of the real plan share a register iff they are the same cell is read off the plan dump by the tie.
+   ================================================================================================================ *)
+From Coq Require Import Bool ZArith.
+From MechV Require Import Model.Crc32 Model.Container Model.ConstCodec Model.BytecodeLink Proofs.BytecodeLinkP Proofs.BytecodeLinkArmsP.
+
+(* the abstract program with function ids erases to Bytecode.compile, its machine to Bytecode.run: the theorems above
+   (C06_run_is_snapshot, C06_run_rebuilds_plan) are about the same program *)
+Theorem C06_named_compile_erases : forall (sem : N -> list cval -> cval) (p : list nstep) (final : nat -> cval),
+  map (erase sem) (ncompile p final) = compile (map (to_pstep sem) p) final.
+Proof. exact erase_compile. Qed.
+Print Assumptions C06_named_compile_erases.
+
+Theorem C06_named_run_erases : forall (sem : N -> list cval -> cval) (P : list ninstr) (st : astate),
+  (a_regs (arun P st), map (to_pstep sem) (a_plan (arun P st))) =
+  fold_left exec (map (erase sem) P) (a_regs st, map (to_pstep sem) (a_plan st)).
+Proof. exact arun_erase. Qed.
+Print Assumptions C06_named_run_erases.
+
+(* (a) For EVERY abstract compiled program (any number of const loads and operations, any values of the modelled kinds,
+   any shapes) the lowered container program is well formed, hence (C07_codec_roundtrip) the emitted file loads and
+   gives back exactly the lowered program: same header, types, constant table, blob, instructions. *)
+Theorem C06_lowered_program_wf : forall (e : lenv) (P : list ninstr),
+  wf_lenv e = true -> forallb wf_ninstr P = true -> size_ok e P = true -> wf_program (lower e P) = true.
+Proof. exact lower_wf. Qed.
+Print Assumptions C06_lowered_program_wf.
+
+Theorem C06_emitted_file_loads : forall (e : lenv) (P : list ninstr),
+  wf_lenv e = true -> forallb wf_ninstr P = true -> size_ok e P = true ->
+  fst (load_program (encode_program (lower e P))) = Ok (lower e P).
+Proof. exact emitted_file_loads. Qed.
+Print Assumptions C06_emitted_file_loads.
+
+(* (b) Decoding the constant table of the (loaded) program gives back, entry by entry and in order, exactly the values
+   the compiler const-loaded — through type interning, alignment padding and the payload codec — and no decoder
+   errs or panics. *)
+Theorem C06_loaded_constants_are_the_snapshot : forall (e : lenv) (P : list ninstr),
+  forallb wf_ninstr P = true -> size_ok e P = true ->
+  decode_consts (lower e P) = (map Some (cl_vals P), REnd).
+Proof. exact lowered_consts_decode. Qed.
+Print Assumptions C06_loaded_constants_are_the_snapshot.
+
+Theorem C06_loaded_const_entry : forall (e : lenv) (P : list ninstr) (k : nat) (v : cval),
+  forallb wf_ninstr P = true -> size_ok e P = true -> nth_error (cl_vals P) k = Some v ->
+  exists en, nth_error (p_consts (lower e P)) k = Some en /\
+             decode_entry (p_types (lower e P)) (p_blob (lower e P)) en = DOk v.
+Proof. exact lowered_const_entry. Qed.
+Print Assumptions C06_loaded_const_entry.
+
+(* the refinement: for ANY abstract program whose operations read const-loaded registers and whose functions the
+   registry accepts, run_program on the lowered program ends normally; every const-loaded cell's register holds what
+   the abstract run leaves in the cell, the rebuilt plan is the abstract plan under the register map, self.out is the
+   abstract out *)
+Theorem C06_lowered_run_refines : forall (R : registry) (e : lenv) (P : list ninstr) (rs : nat -> cval),
+  forallb wf_ninstr P = true -> size_ok e P = true -> runnable R [] P rs ->
+  exists C, crun R (lower e P) = (C, CEok) /\
+    (forall c, In c (lower_cells P) -> c_regs C (reg_of (lower_cells P) c) = Some (a_regs (arun P (astate0 rs)) c)) /\
+    c_plan C = map (lower_nstep (lower_cells P)) (a_plan (arun P (astate0 rs))) /\
+    c_out C = a_out (arun P (astate0 rs)).
+Proof. exact lowered_run_refines. Qed.
+Print Assumptions C06_lowered_run_refines.
+
+(* registers are numbered in order of first use: out, then the operands in order, step by step *)
+Theorem C06_registers_in_first_use_order : forall (p : list nstep) (final : nat -> cval),
+  lower_cells (ncompile p final) = alloc_all (ncells p) [].
+Proof. exact lower_cells_ncompile. Qed.
+Print Assumptions C06_registers_in_first_use_order.
+
+(* (c) END TO END, over bytes: for EVERY plan p and final store of the interpreter (H1-H3 above), the bytes
+   encode_program (lower (compile p final)) load; every constant decodes to the value written; run_program on the LOADED
+   program ends normally; the register of every cell of the plan holds the interpreter's final value of that cell; the
+   plan rebuilt in the fresh interpreter is p (same function ids, same cells, same order); and the result self.out is
+   the interpreter's value of the last step's output. *)
+Theorem C06_compile_load_run : forall (R : registry) (e : lenv) (p : list nstep) (final : nat -> cval),
+  wf_lenv e = true -> forallb wf_nstep p = true ->
+  (forall c, In c (ncells p) -> wf_cval (final c) = true) ->
+  size_ok e (ncompile p final) = true ->
+  plan_accepted R p final ->
+  let P := ncompile p final in
+  let regmap := alloc_all (ncells p) [] in
+  exists q C,
+    fst (load_program (encode_program (lower e P))) = Ok q /\
+    decode_consts q = (map Some (cl_vals P), REnd) /\
+    crun R q = (C, CEok) /\
+    (forall c, In c (ncells p) -> c_regs C (reg_of regmap c) = Some (final c)) /\
+    c_plan C = map (lower_nstep regmap) p /\
+    (forall p' s, p = (p' ++ [s])%list -> c_out C = Some (final (n_out s))).
+Proof. exact compile_load_run. Qed.
+Print Assumptions C06_compile_load_run.
+
+(* ... and WITHOUT any hypothesis on the registry (unknown ids, refusing factories): the file still loads, every
+   constant decodes, and the run ends with a value or an error — the run loop never indexes a register or a constant
+   out of range. *)
+Theorem C06_compile_load_run_no_panic : forall (R : registry) (e : lenv) (p : list nstep) (final : nat -> cval),
+  wf_lenv e = true -> forallb wf_nstep p = true ->
+  (forall c, In c (ncells p) -> wf_cval (final c) = true) ->
+  size_ok e (ncompile p final) = true ->
+  exists q, fst (load_program (encode_program (lower e (ncompile p final)))) = Ok q /\
+            snd (decode_consts q) = REnd /\ snd (crun R q) <> CEpanic.
+Proof. exact compile_load_run_no_panic. Qed.
+Print Assumptions C06_compile_load_run_no_panic.
+
+(* (d) the known findings in the model.  run-unknown-function: a function id without a registered factory makes the
+   run of the loaded bytes end with an error. *)
+Theorem C06_unregistered_function_is_an_error : forall (R : registry) (e : lenv) (p : list nstep) (final : nat -> cval),
+  wf_lenv e = true -> forallb wf_nstep p = true ->
+  (forall c, In c (ncells p) -> wf_cval (final c) = true) ->
+  size_ok e (ncompile p final) = true ->
+  (exists s, In s p /\ known R (n_fid s) = false) ->
+  snd (crun R (lower e (ncompile p final))) = CEerr.
+Proof. exact unregistered_function_errs. Qed.
+Print Assumptions C06_unregistered_function_is_an_error.
+
+(* result-is-last-step: whichever cell [res] holds the interpreter's program result, the run returns the last step's
+   output — silently another value when the two differ. *)
+Theorem C06_result_is_last_step : forall (R : registry) (e : lenv) (p' : list nstep) (s : nstep) (final : nat -> cval) (res : nat),
+  wf_lenv e = true -> forallb wf_nstep (p' ++ [s])%list = true ->
+  (forall c, In c (ncells (p' ++ [s])%list) -> wf_cval (final c) = true) ->
+  size_ok e (ncompile (p' ++ [s])%list final) = true ->
+  plan_accepted R (p' ++ [s])%list final ->
+  final res <> final (n_out s) ->
+  exists C, crun R (lower e (ncompile (p' ++ [s])%list final)) = (C, CEok) /\ c_out C <> Some (final res).
+Proof. exact result_is_last_step. Qed.
+Print Assumptions C06_result_is_last_step.
+
+(* the operation step of the concrete runner is what the regenerated arms of run_program do (Gen/InstrArms.v) *)
+Theorem C06_concrete_step_is_source_arm : forall (i : instr) (f d : N) (a : list N),
+  op_parts i = Some (f, d, a) -> src_run i = Some (d, a, ["set-out"; "add-step"]%string).
+Proof. exact cstep_is_source_arm. Qed.
+Print Assumptions C06_concrete_step_is_source_arm.
+
+(* ---- non-vacuity, and the model's bytes against REAL files (Model/BytecodeLinkSample.v is generated by
+   tools/c06_link_sample.py from files the real compiler emitted for three programs: scalars/strings/bools; f64 matrices
+   with VarArg, TernOp and index constants; a multi-byte string and an i16 vector): the hypotheses of C06_compile_load_run hold,
+   and encode_program (lower (ncompile plan final)) IS the emitted file, byte for byte (CRC included). ---- *)
+From MechV Require Import Base.Sexp Base.Obs Model.LoaderJ Model.BytecodeLinkSample Model.BytecodeLinkJ Proofs.BytecodeLinkJP.
+
+Example C06_sample_hypotheses :
+  (wf_lenv sample_a_env && forallb wf_nstep sample_a_plan && forallb (fun c => wf_cval (sample_a_final c)) (ncells sample_a_plan)
+   && size_ok sample_a_env (ncompile sample_a_plan sample_a_final)) = true /\
+  (wf_lenv sample_b_env && forallb wf_nstep sample_b_plan && forallb (fun c => wf_cval (sample_b_final c)) (ncells sample_b_plan)
+   && size_ok sample_b_env (ncompile sample_b_plan sample_b_final)) = true /\
+  (wf_lenv sample_c_env && forallb wf_nstep sample_c_plan && forallb (fun c => wf_cval (sample_c_final c)) (ncells sample_c_plan)
+   && size_ok sample_c_env (ncompile sample_c_plan sample_c_final)) = true.
+Proof. vm_compute. repeat split. Qed.
+Print Assumptions C06_sample_hypotheses.
+
+Example C06_sample_file_is_the_real_file :
+  encode_program (lower sample_a_env (ncompile sample_a_plan sample_a_final)) = sample_a_file /\
+  encode_program (lower sample_b_env (ncompile sample_b_plan sample_b_final)) = sample_b_file /\
+  encode_program (lower sample_c_env (ncompile sample_c_plan sample_c_final)) = sample_c_file.
+Proof. vm_compute. repeat split. Qed.
+Print Assumptions C06_sample_file_is_the_real_file.
+
+(* ---- the tie: soundness of the link checks of the extracted judge (Model/BytecodeLinkJ.v, extracted by Extract/C06x.v).
+   (F) a file for which the judge's file check answers yes IS encode_program (lower e P) for a well-formed abstract
+   program P (rebuilt from the file's own constants and instructions): C06_emitted_file_loads,
+   C06_loaded_constants_are_the_snapshot, C06_lowered_run_refines apply to that very file. *)
+Theorem C06_file_link_sound : forall bs : bytes, file_link bs = LYes ->
+  exists e P, wf_lenv e = true /\ forallb wf_ninstr P = true /\ size_ok e P = true /\ bs = encode_program (lower e P).
+Proof. exact file_link_sound. Qed.
+Print Assumptions C06_file_link_sound.
+
+(* (I) an instruction list for which the judge's plan check answers yes is the instruction list [lower] lays out for the
+   compiled plan read from the dump (out, operands in field order; ids and VarArg-ness from the k-th operation) *)
+Theorem C06_instrs_link_sound : forall plan is : list sx, instrs_link plan is = LYes ->
+  exists rp p, map_opt decode_rstep plan = Some rp /\ zip_steps rp (filter_opt sx_op is) = Some p /\
+               is = map instr_sx (snd (lower_go ls0 (ncompile p dummy_final))).
+Proof. exact instrs_link_sound. Qed.
+Print Assumptions C06_instrs_link_sound.
+
+(* an ok / kf answer of the extended judge: the base judge answered ok / kf and no link check disagreed *)
+Theorem C06_link_verdict_sound : forall (v : sx) (f i : lres) (pr : sx),
+  (v_head (link_verdict v f i pr) = "ok"%string \/ v_head (link_verdict v f i pr) = "kf"%string) ->
+  (v_head v = "ok"%string \/ v_head v = "kf"%string) /\ (forall w, f <> LNo w) /\ (forall w, i <> LNo w).
+Proof. exact link_verdict_sound. Qed.
+Print Assumptions C06_link_verdict_sound.
